@@ -651,3 +651,14 @@ _ADDED12 = {
 }
 for _pid, _txt in _ADDED12.items():
     PROPS[_pid]["rule"] = PROPS[_pid]["rule"] + _txt
+_ADDED13 = {
+    "C02": " The second recorded shape (full-duplex, fewer responses than requests, no error) is repaired (fix 9e063c6) and generated like any other case.",
+    "C05": " CLI: --port without --max-servers in client mode, reference client as client under test.",
+    "C06": " Configs without any features key.",
+    "C07": " Suites whose open axes are empty lists.",
+    "C13": " Status / details messages that differ only by edge white space other than space and tab; BinE2E also with calls that end in an error.",
+    "C14": " H2 exchanges whose connection fails to close.",
+    "C17": " Encoders after an earlier failed write; raw request methods in any letter case.",
+}
+for _pid, _txt in _ADDED13.items():
+    PROPS[_pid]["rule"] = PROPS[_pid]["rule"] + _txt
